@@ -143,7 +143,7 @@ class Kernel:
         self._ensure_loops()
         if nid in self._loop_ids:
             k = self._loop_ids[nid]
-            if self._loop_remap is not None:
+            if self._loop_remap is not None and self.bounded_mode is None:      # bounded mode unrolls every loop: no invariant is looked up
                 if self._loop_remap.get(k) is None:
                     raise Gap("loop #%s at line %s (%s) was added or moved since the contract's invariants were written "
                               "(contracts/loop_baseline.json): it has no invariant of its own" % (
